@@ -8,6 +8,7 @@ From TLV Require Import Base.Shape Base.PyList Base.Tensor Base.BigSum Base.Ops 
   Proofs.TransformsProofsTTM Proofs.TransformsProofsOrtho Proofs.TransformsProofsNegMode Proofs.TransformsProofsNegMode2 Proofs.TransformsProofsAlign Proofs.TransformsProofsLink
   Model.TransformsApi Model.TransformsHeap Proofs.TransformsProofsValid Proofs.TransformsProofsHeap Proofs.TransformsProofsHeapTk
   Model.TransformsCplx Model.TransformsRT Proofs.TransformsProofsCplx Proofs.TransformsProofsRT Proofs.TransformsProofsBc Proofs.TransformsProofsLink2 Model.TransformsTkObj Proofs.TransformsProofsTkObj Proofs.TransformsProofsTkObjR Model.TransformsPfHeap Proofs.TransformsProofsPfHeap.
+From TLV Require Import Proofs.TransformsProofsFrob.
 From TLV Require Import Proofs.TransformsProofsLossy Model.TransformsTkObj8 Proofs.TransformsProofsTkObj8 Model.TransformsPfHeap Model.TransformsPfObj Proofs.TransformsProofsPfObj.
 From TLV Require Model.Factorized Proofs.FactorizedProofs Proofs.FactorizedProofs3 Proofs.FactorizedProofs5 Proofs.FactorizedProofs7 Proofs.FactorizedProofs9.
 Import ListNotations.
@@ -1422,4 +1423,31 @@ Proof.
   cbv zeta. do 4 eexists. split; [vm_compute; reflexivity|]. split.
   - unfold pcell_wf. simpl. split; [lia|]. intros l [<-|[<-|[]]]; lia.
   - split; [vm_compute; auto|]. split; [vm_compute; reflexivity|]. repeat split; vm_compute; reflexivity.
+Qed.
+
+(* --- how much lossy compression discards: with orthonormal left AND right singular vectors (U^T U = I, Vh Vh^T = I on the K data columns)
+   the sum of squares of the discarded part X - loading x score is the sum of squares of the dropped singular values *)
+Theorem C04_svd_compress_residual_energy : forall (F : Type) (Op : fops F), ring_theory (f0 Op) (f1 Op) (fadd Op) (fmul Op) (fsub Op) (fopp Op) (@eq F) ->
+  forall (rl : nat) (thr : F) (X U : mat F) (s : list F) (Vh score Lm : mat F) (K : nat),
+  compress_slice Op rl thr X (U, s, Vh) = (score, Some Lm) -> length Vh = length s -> K <= ncols score ->
+  (forall a b, a < length s -> b < length s -> gram Op U a b = if Nat.eqb a b then f1 Op else f0 Op) ->
+  (forall a b, a < length s -> b < length s -> sumn Op K (fun k => fmul Op (mget Op Vh a k) (mget Op Vh b k)) = if Nat.eqb a b then f1 Op else f0 Op) ->
+  (forall j k, j < length U -> k < K -> mget Op X j k = sumn Op (length s) (fun t => fmul Op (mget Op U j t) (fmul Op (vget Op s t) (mget Op Vh t k)))) ->
+  sumn Op (length U) (fun j => sumn Op K (fun k =>
+     fmul Op (fsub Op (mget Op X j k) (mget Op (matmul Op Lm score) j k)) (fsub Op (mget Op X j k) (mget Op (matmul Op Lm score) j k))))
+  = sumn Op (length s - count_kept Op thr s) (fun t => fmul Op (vget Op s (count_kept Op thr s + t)) (vget Op s (count_kept Op thr s + t))).
+Proof. exact @compress_residual_energy. Qed.
+Print Assumptions C04_svd_compress_residual_energy.
+
+(* non-vacuity: the data of C04_lossy_nonvacuous (U = Vh = I, s = [2; 1], threshold 1 keeps one value): the discarded energy is 1 = 1^2 *)
+Example C04_residual_energy_nonvacuous :
+  let X := [[2; 0]; [0; 1]]%Z in let U := [[1; 0]; [0; 1]]%Z in let s := [2; 1]%Z in
+  exists score Lm, compress_slice Zops 2 1%Z X (U, s, U) = (score, Some Lm) /\ ncols score = 2 /\
+    (forall a b, a < 2 -> b < 2 -> gram Zops U a b = if Nat.eqb a b then 1%Z else 0%Z) /\
+    (forall a b, a < 2 -> b < 2 -> sumn Zops 2 (fun k => (mget Zops U a k * mget Zops U b k)%Z) = if Nat.eqb a b then 1%Z else 0%Z) /\
+    sumn Zops 2 (fun j => sumn Zops 2 (fun k => ((mget Zops X j k - mget Zops (matmul Zops Lm score) j k) * (mget Zops X j k - mget Zops (matmul Zops Lm score) j k))%Z)) = 1%Z.
+Proof.
+  cbv zeta. do 2 eexists. split; [vm_compute; reflexivity|]. split; [reflexivity|]. split.
+  - intros [|[|a]] [|[|b]] Ha Hb; try lia; reflexivity.
+  - split; [intros [|[|a]] [|[|b]] Ha Hb; try lia; reflexivity|reflexivity].
 Qed.
